@@ -284,6 +284,42 @@ def reconnect_batch(rep, rng, n):
                           'broker: %s %r' % (cycles, r['abort'], r['excs'][:1]), replay)
 
 
+def poller_smoke(rep):
+    """the two real pollers on a real (local) socket pair - everywhere else they are replaced by virtual ones: the reader only
+    gets bytes if `is_ready` says True when something can be read (data or end of stream) and False when nothing can"""
+    import amqpstorm.io as aio
+    saved = aio.POLL_TIMEOUT
+    aio.POLL_TIMEOUT = 0.02
+    try:
+        for cls in (aio.SelectPoller, getattr(aio, 'Poller', None)):
+            if cls is None or (cls is aio.Poller and not hasattr(__import__('select'), 'poll')):
+                continue
+            a, b = socket.socketpair()
+            errs = []
+            p = cls(a.fileno(), errs)
+            obs = []
+            try:
+                obs.append(('idle', bool(p.is_ready)))
+                b.send(b'x')
+                obs.append(('data', bool(p.is_ready)))
+                a.recv(10)
+                obs.append(('drained', bool(p.is_ready)))
+                b.close()
+                obs.append(('eof', bool(p.is_ready)))
+            finally:
+                p.close()
+                a.close()
+            want = [('idle', False), ('data', True), ('drained', False), ('eof', True)]
+            rep.case(('poller', cls.__name__), True, sample={'poller': cls.__name__, 'observed': obs})
+            rep.count('poller', cls.__name__)
+            if obs != want or errs:
+                rep.violation('C02/poller-readiness/%s' % cls.__name__, '%s.is_ready on a real socket pair: %r (errors %r), expected %r' % (
+                    cls.__name__, obs, [repr(e)[:60] for e in errs], want),
+                    {'kind': 'poller', 'poller': cls.__name__, 'frames_hex': [], 'chunks_hex': []})
+    finally:
+        aio.POLL_TIMEOUT = saved
+
+
 def check(rep):
     rng = random.Random(common.seed() * 7919 + 2)
     thorough = rep.tier == 'thorough'
@@ -398,6 +434,7 @@ def check(rep):
 
     # -- reconnects with the real reader threads ---------------------------------------------------
     reconnect_batch(rep, rng, 40 if not thorough else 1500)
+    poller_smoke(rep)
 
     # -- run the model and diff --------------------------------------------------------------------
     if rep.build.driver_ok:
@@ -413,6 +450,11 @@ def check(rep):
 def replay(data):
     """Re-run one recorded stream/chunking on the real code and print what happened."""
     r = data['replay']
+    if r.get('kind') == 'poller':
+        rep = common.Report('C02', 'quick')
+        poller_smoke(rep)
+        print('VIOLATION reproduced' if rep.violations else 'property holds on this input')
+        return 1 if rep.violations else 0
     if r.get('kind') == 'reconnect':
         o = reconnect_one((r['cycles'], r['calls'], r['seed']))
         bad = bool(o['excs']) or o['abort'] != 'all application threads finished' or bool(o.get('wrong_reply')) or \
